@@ -12,6 +12,10 @@
 //!     towermw like tower, but the shared builder carries no rpc middleware: it is set per accepted connection on the
 //!             clone (`shared.clone().set_rpc_middleware(mw).build(..)`), no explicit `connection_id`: the connection
 //!             ids must still come from the ONE shared counter
+//!     <entry>+r  the same entry point with an `IdProvider` that hands out the SAME subscription id (1000) every time
+//!             (id re-use after the earlier subscription under that id is gone); the glue (subhist_common.py) sends
+//!             scripts in which a new subscribe on a connection follows only after the previous one there was
+//!             unsubscribed / rejected / lost its last sink, and renames the ids in the output by generation
 //!   sub,c,req | uns,c,req,target | acc,s | rej,s,code | cl,s,src,k | dr,s,k | snd,s,k,x | tsnd,s,k,x | isc,s,k |
 //!   ret,s,n|m|e,x | ab,s,k|d (abandon the subscribe call of s) | dp,s (drop the pending sink unanswered) | cd,c | stop
 //! One output line = the ordered observations, as JSON with sorted keys:
@@ -70,6 +74,16 @@ struct CountingIds(AtomicU64);
 impl IdProvider for CountingIds {
 	fn next_id(&self) -> SubscriptionId<'static> {
 		SubscriptionId::Num(ID_BASE + self.0.fetch_add(1, Ordering::SeqCst))
+	}
+}
+
+/// Entry suffix `+r`: every subscription gets the SAME id (`ID_BASE`), the way a fixed / topic-derived id provider
+/// re-uses an id once the earlier subscription under it is gone.
+#[derive(Debug)]
+struct ConstantId;
+impl IdProvider for ConstantId {
+	fn next_id(&self) -> SubscriptionId<'static> {
+		SubscriptionId::Num(ID_BASE)
 	}
 }
 
@@ -745,7 +759,7 @@ enum Entry {
 	TowerMw,
 }
 
-async fn run_case(entry: Entry, cap: u32, nconns: usize, steps: Vec<Step>) -> String {
+async fn run_case(entry: Entry, reuse_ids: bool, cap: u32, nconns: usize, steps: Vec<Step>) -> String {
 	let (reg_tx, reg_rx) = mpsc::unbounded_channel();
 	let ctl = Arc::new(Ctl {
 		next: AtomicUsize::new(0),
@@ -777,10 +791,9 @@ async fn run_case(entry: Entry, cap: u32, nconns: usize, steps: Vec<Step>) -> St
 			0u8
 		})
 		.unwrap();
-	let cfg = ServerConfig::builder()
-		.max_subscriptions_per_connection(cap)
-		.set_id_provider(CountingIds(AtomicU64::new(0)))
-		.build();
+	let cfg = ServerConfig::builder().max_subscriptions_per_connection(cap);
+	let cfg = if reuse_ids { cfg.set_id_provider(ConstantId) } else { cfg.set_id_provider(CountingIds(AtomicU64::new(0))) };
+	let cfg = cfg.build();
 	let (addr, handle) = match entry {
 		Entry::Server => {
 			let mut server = None;
@@ -947,9 +960,17 @@ fn handle_line(line: &str) -> String {
 	let mut cap = 0u32;
 	let mut nconns = 1usize;
 	let mut entry = Entry::Server;
+	let mut reuse_ids = false;
 	let mut steps = Vec::new();
 	for tok in line.split_whitespace() {
 		if let Some(e) = tok.strip_prefix('E') {
+			let e = match e.strip_suffix("+r") {
+				Some(e) => {
+					reuse_ids = true;
+					e
+				}
+				None => e,
+			};
 			entry = match e {
 				"server" => Entry::Server,
 				"tower" => Entry::Tower,
@@ -975,7 +996,7 @@ fn handle_line(line: &str) -> String {
 	}
 	let rt = tokio::runtime::Builder::new_current_thread().enable_all().build().unwrap();
 	let out = rt.block_on(async move {
-		match timeout(Duration::from_secs(60), run_case(entry, cap, nconns, steps)).await {
+		match timeout(Duration::from_secs(60), run_case(entry, reuse_ids, cap, nconns, steps)).await {
 			Ok(s) => s,
 			Err(_) => r#"{"fatal":"case-timeout"}"#.into(),
 		}
